@@ -108,6 +108,9 @@ def run_check(pid, tier, seed):
         if err:
             return finish_undecided_or_replay(pid, tier, seed, t0, "extraction: " + err, plan)
         attr = vx.Attribution(mp)
+        # the vacuity-probe build runs concurrently with the main run
+        ppath, pmp, perr = vx.extract(bdir, probes=True, name="fb_probe", probe_prop=(None if tier == "thorough" else pid))
+        pstarted = vx.start_verus(ppath, seed=seed, multiple_errors=400) if perr is None else None
         res = vx.run_verus(path, seed=seed)
         verus_info = res
         if res["json"] is None:
@@ -147,11 +150,26 @@ def run_check(pid, tier, seed):
             return finish_undecided_or_replay(pid, tier, seed, t0, "SMT resource limit: " + "; ".join(hit[:3]), plan)
         for f in failures:
             (failures_mine if pid in f["props"] else other_failures).append(f)
+        # a unit counts against this property only if one of its failures is attributed to this property
+        kf_mine = [k for k in known.get("findings", []) if k["property"] == pid]
+        def is_known(f):
+            return any(finding_matches(k, f) for k in kf_mine)
+        failing_fns_mine = set(f["fn"] for f in failures_mine if not is_known(f))
+        known_labels = set(k.get("label") for k in kf_mine if k.get("label"))
+        for u in my_units:
+            if not u["ok"]:
+                f = fn_props.get(u["unit"])
+                key = f["fn"] if f else u["unit"]
+                if key not in failing_fns_mine and not any((ff["fn"] or "").endswith(u["unit"]) for ff in failures_mine if not is_known(ff)):
+                    u["ok_for_this_property"] = True
+        known_labels = set(k.get("label") for k in known.get("findings", []) if k["property"] == pid and k.get("label"))
         my_clauses = [c for c in mp["clauses"] if pid in c["props"]]
         failed_labels = set()
         for f in failures:
             failed_labels.update(f["labels"])
-        clause_rows = [{"label": c["label"], "kind": c["kind"], "ok": c["label"] not in failed_labels} for c in my_clauses]
+        clause_rows = [{"label": c["label"], "kind": c["kind"], "ok": c["label"] not in failed_labels} for c in my_clauses
+                       if not (c["label"] in known_labels and c["label"] in failed_labels)]
+        coverage["known_finding_clauses"] = sorted(l for l in known_labels if l in failed_labels)
         assumed = [f for f in mp["functions"] if f["mode"] == "assume" and pid in f["props"]]
         coverage.update({
             "verus_units": my_units,
@@ -162,16 +180,15 @@ def run_check(pid, tier, seed):
             "extraction_edits": len(mp["edits"]),
             "verus_total_units": len(all_units), "verus_total_failed_units": sum(1 for u in all_units if not u["ok"]),
         })
-        units += [("verus:" + u["unit"], u["ok"]) for u in my_units]
+        units += [("verus:" + u["unit"], u["ok"] or u.get("ok_for_this_property", False)) for u in my_units]
         units += [("clause:" + c["label"], c["ok"]) for c in clause_rows]
         for kind, name, line in vx.assumption_scan(path):
             trusted.append("%s %s (generated line %d)" % (kind, name, line))
 
         # -------------------------------------------------------------- vacuity probes
-        ppath, pmp, perr = vx.extract(bdir, probes=True, name="fb_probe")
         probe_info = {"total": 0, "failed_as_required": 0, "not_failing": []}
         if perr is None:
-            pres = vx.run_verus(ppath, seed=seed, multiple_errors=400)
+            pres = vx.finish_verus(pstarted)
             plines = open(ppath).read().splitlines()
             failing_lines = set()
             for d in pres["diags"]:
